@@ -555,17 +555,17 @@ class IntersectionMatcher(AdditiveBiMatcher):
                 # quality when added to B
                 # (only the other matcher's overall maximum bounds every
                 # document of the skipped blocks)
-                sk = a.skip_to_quality(minquality - b.max_quality())
-                skipped += sk
-                if not sk and a.is_active():
-                    # The matcher couldn't skip ahead for some reason, so just
-                    # advance and try again
+                before = a.id()
+                skipped += a.skip_to_quality(minquality - b.max_quality())
+                if a.is_active() and a.id() == before:
+                    # The matcher didn't move (the number of skipped blocks
+                    # can be 0 even if it did), so just advance and try again
                     a.next()
             else:
                 # And vice-versa
-                sk = b.skip_to_quality(minquality - a.max_quality())
-                skipped += sk
-                if not sk and b.is_active():
+                before = b.id()
+                skipped += b.skip_to_quality(minquality - a.max_quality())
+                if b.is_active() and b.id() == before:
                     b.next()
 
             if not a.is_active() or not b.is_active():
